@@ -53,9 +53,16 @@ def build_corpus(tier, rng):
     for _ in range(300 if thorough else 40):
         n = rng.randint(6, 12)
         fieldless = rng.random() < 0.6
-        it = G.string_enum(rng, nvariants=n, allow_default=False, allow_dw=False, allow_aci=False, allow_fields=not fieldless,
+        it = G.string_enum(rng, nvariants=n, allow_default=False, allow_dw=False, allow_aci=True, allow_fields=not fieldless,
                            allow_prefix=True, custom_err=False, generics=not fieldless)
         items.append(("random", it))
+    # case-twin spellings on case-insensitive variants: VARIANTS still lists the LAST of the longest spellings
+    from vlib.defs import aci
+    for fl in (None, "bare", True, False):
+        f_ = [] if fl is None else [aci(True, explicit=False)] if fl == "bare" else [aci(fl, explicit=True)]
+        items.append(("case-twins", Item("E", [Variant("Enter", "unit", [], list(f_)), Variant("Tab", "unit", [], [ser("tab"), ser("TAB")] + f_),
+                                               Variant("Escape", "tuple", [Field("u8")], f_ + [ser("Esc"), ser("ESC"), ser("esc")]), Variant("Off", "unit", [], [DISABLED, ser("off"), ser("OFF")] + f_),
+                                               Variant("Up", "unit", [], [ser("u"), ser("UP"), ser("up")] + f_)], metas=[EM("aci")] if fl is False else [])))
     # two variants with the SAME canonical name: every list still has one entry per variant
     items.append(("samename", Item("E", [Variant("HTTPServer", "unit"), Variant("HttpServer", "unit"), Variant("Other", "unit")], metas=[EM("sall", "kebab-case")])))
     items.append(("samename", Item("E", [Variant("Crimson", "unit", [], [ser("Red")]), Variant("Red", "unit"), Variant("Blue", "tuple", [Field("u8")], [tos("Red")])])))
